@@ -237,7 +237,9 @@ def insertLog (now : Time) (l : LogIn) (d : Db) (sq : Seqs) : Seqs × Except Sto
   else if l.ik ≠ "" ∧ d.logs.any (fun x => x.ik = l.ik) then (sq', .error .ikConflict)
   else (sq', .ok (row, { d with logs := d.logs ++ [row] }))
 
-def readLogWithIK (ik : String) (d : Db) : Option Log := d.logs.find? (·.ik == ik)
+/-- `WHERE idempotency_key = ?`: an empty key is stored as NULL, which equals nothing. -/
+def readLogWithIK (ik : String) (d : Db) : Option Log :=
+  if ik = "" then none else d.logs.find? (·.ik == ik)
 
 /-! ### the calls of the `Store` interface -/
 
